@@ -235,6 +235,14 @@ Theorem C37_bk_vertex_law sig mH mB vtrans n pHB w v vH :
 Proof. exact (bk_vertex_law sig mH mB vtrans n pHB w v vH). Qed.
 Print Assumptions C37_bk_vertex_law.
 
+Theorem C37_bk_each_vertex_gets_its_law sig mH mB vtrans n pHB w v vs F pe pw :
+  bk_loop ROps sig mH mB vtrans n pHB w v vs (F, pe, pw) =
+    (sv_add ROps F (sv_sum (map (fun vH => fst (fst (bk_contrib sig mH mB vtrans n pHB w v vH))) vs)),
+     pe + sumR (map (fun vH => snd (fst (bk_contrib sig mH mB vtrans n pHB w v vH))) vs),
+     pw + sumR (map (fun vH => snd (bk_contrib sig mH mB vtrans n pHB w v vH)) vs)).
+Proof. exact (bk_each_vertex_gets_its_law sig mH mB vtrans n pHB w v vs F pe pw). Qed.
+Print Assumptions C37_bk_each_vertex_gets_its_law.
+
 Theorem C37_ex_hc_fric_ok : hc_fric_ok ex_p.
 Proof. exact (@ex_hc_fric_ok). Qed.
 Print Assumptions C37_ex_hc_fric_ok.
